@@ -19,12 +19,27 @@ ASSUMPTIONS = ["shape tolerance 1e-9 * exact magnitude scale", "knot vectors com
 
 @st.composite
 def ins_desc(draw):
-    k = draw(st.sampled_from(["in", "in", "knot", "knot", "other", "near"]))
+    k = draw(st.sampled_from(["in", "in", "knot", "knot", "other", "near", "decimal", "again"]))
     return [k, draw(st.integers(0, 63)), draw(st.integers(1, 63)) / 64.0, draw(st.integers(0, 7))]
 
 
-def pick_insert(p, kv, n, desc, others=()):
-    """(u, s, r): an admissible insertion derived from the descriptor against the CURRENT knot vector."""
+def pick_insert(p, kv, n, desc, others=(), again=()):
+    """(u, s, r): an admissible insertion derived from the descriptor against the CURRENT knot vector.
+    ``again``: parameters passed to earlier insertions in this direction (kind 'again' passes one of them once more,
+    as the same float - the stored knot may differ from it in the last digits after the library's 18-decimal rounding)."""
+    if desc[0] == "again" and again:
+        u = again[desc[1] % len(again)]
+        s = sum(1 for k in kv if abs(k - u) <= 1e-7)          # the library identifies knots up to 1e-7
+        if kv[p] < u < kv[n] and 1 <= s < p:
+            return u, s, 1 + desc[3] % (p - s)
+    if desc[0] in ("decimal", "again"):
+        # a parameter that is not a dyadic rational: a multiple of 1/7000 of the span width above the span start
+        spans = [j for j in range(p, n) if kv[j] < kv[j + 1]]
+        j = spans[0] if desc[1] % 2 == 0 else spans[desc[1] % len(spans)]
+        u = kv[j] + (kv[j + 1] - kv[j]) * (1 + desc[3] * 8 + int(desc[2] * 64)) / 7000.0
+        if not (kv[j] < u < kv[j + 1]) or min(abs(u - k) for k in kv) < 1e-4:
+            return None
+        return u, 0, 1 + desc[3] % p
     if desc[0] == "near":
         # 2^-18 (3.8e-6) next to an existing knot: a different knot for the library (its identification tolerance is 1e-7)
         u, kind = build.resolve_param(p, kv, n, ["near", desc[1], desc[2], 1 if desc[3] % 2 else -1, 2.0 ** -18], others=others)
@@ -115,13 +130,15 @@ def check_insert(case, ctx):
         for k, desc in enumerate(op["dirs"]):
             if desc is None:
                 continue
-            pick = pick_insert(degs[k], kvs[k], szs[k], desc, others=[o for j, o in enumerate(kvs) if j != k])
+            pick = pick_insert(degs[k], kvs[k], szs[k], desc, others=[o for j, o in enumerate(kvs) if j != k], again=inserted[k])
             if pick is None:
                 continue
             u, s, r = pick
             params[k], nums[k] = u, r
             onknot = onknot or s >= 1
             rge2 = rge2 or r >= 2
+            ctx.label("non-dyadic-parameter", desc[0] in ("decimal", "again"))
+            ctx.label("same-parameter-passed-again", desc[0] == "again" and s >= 1)
             ctx.label("param-is-knot-of-other-direction", desc[0] == "other" and any(u in o for j, o in enumerate(kvs) if j != k))
         if all(x is None for x in params):
             continue
